@@ -195,6 +195,58 @@ def v2_tables(tier, seed):
     return tabs
 
 
+def pair_dim(ver, b, values=None):
+    """a base metric and its modified twin in every equivalent spelling: b:v | b:v + Mb:X | b:v + Mb:v"""
+    opts = []
+    for v in (values or V[ver][b]):
+        opts += [{b: v}, {b: v, "M" + b: ND[ver]}, {b: v, "M" + b: v}]
+    return {"name": b + "/M" + b, "opts": opts}
+
+
+def nd_dim(ver, m, equiv, extra=()):
+    """absent | Not Defined | the value the standard declares equivalent (| other values)"""
+    return {"name": m, "opts": [{}, {m: ND[ver]}, {m: equiv}] + [{m: x} for x in extra]}
+
+
+def equiv_tables(tier, seed):
+    """layouts whose inner dimensions contain *equivalent* spellings (absent / Not Defined / equivalent value; modified metric
+    absent / X / equal to its base metric): TLC (Mode=equiv) finds the equivalent option pairs itself and demands equal scores"""
+    rnd = random.Random(seed * 7919 + 66)
+    tabs = []
+    # v2: every base vector; requirements, CDP/TD and temporal metrics in equivalent spellings
+    b3 = [dim("2", m) for m in ["AV", "AC", "Au"]]
+    cia = [dim("2", m) for m in ["C", "I", "A"]]
+    rq = tuple_dim("R", ["CR", "IR", "AR"], [("-", "-", "-"), ("ND", "ND", "ND"), ("M", "M", "M"), ("ND", "M", "-"), ("H", "L", "M"), ("H", "L", "ND")])
+    en = tuple_dim("Env", ["CDP", "TD"], [("-", "-"), ("N", "-"), ("ND", "H"), ("-", "H"), ("N", "H"), ("L", "M"), ("L", "ND")])
+    tm = tuple_dim("T", ["E", "RL", "RC"], [("-", "-", "-"), ("H", "U", "C"), ("ND", "ND", "ND"), ("H", "-", "ND"), ("F", "W", "UR"), ("F", "W", "-")])
+    tabs.append(header("2", -1, {}, b3, cia + [rq, en, tm]))
+    for minor in (0, 1):
+        # v3: every base vector; requirements and temporal metrics in equivalent spellings
+        b5 = [dim("3", m) for m in ["AV", "AC", "PR", "UI", "S"]]
+        c3 = [dim("3", m) for m in ["C", "I", "A"]]
+        rq3 = tuple_dim("R", ["CR", "IR", "AR"], [("-", "-", "-"), ("X", "X", "X"), ("M", "M", "M"), ("M", "X", "-"), ("H", "L", "M"), ("H", "L", "X")])
+        tm3 = tuple_dim("T", ["E", "RL", "RC"], [("-", "-", "-"), ("X", "X", "X"), ("H", "U", "C"), ("H", "X", "-"), ("F", "T", "R"), ("F", "T", "-")])
+        tabs.append(header("3", minor, {}, b5, c3 + [rq3, tm3]))
+        # v3: exploitability metrics with their modified twins, under every Scope / Modified Scope pair
+        ms = {"name": "MS", "opts": [{}, {"MS": "X"}, {"MS": "U"}, {"MS": "C"}]}
+        imp = tuple_dim("CIA", ["C", "I", "A"], [("H", "H", "H"), ("L", "N", "H"), ("N", "L", "N")])
+        tabs.append(header("3", minor, {}, [dim("3", "S"), ms, imp], [pair_dim("3", b) for b in ["AV", "AC", "PR", "UI"]]))
+        # v3: impact metrics with their modified twins
+        ex = tuple_dim("EX", ["AV", "AC", "PR", "UI"], [("N", "L", "N", "N"), ("L", "H", "L", "R"), ("P", "L", "H", "N")])
+        tabs.append(header("3", minor, {}, [dim("3", "S"), ms, ex, dim("3", "CR", absent=True, values="H")], [pair_dim("3", b) for b in ["C", "I", "A"]]))
+    # v4: exploitability metrics with their modified twins
+    imp4 = tuple_dim("IMP", ["VC", "VI", "VA", "SC", "SI", "SA"], [("H", "H", "H", "N", "N", "N"), ("L", "N", "H", "H", "L", "N"), ("N", "L", "N", "L", "H", "H"), ("H", "L", "L", "N", "N", "L")])
+    tabs.append(header("4", -1, {}, [imp4, dim("4", "E", absent=True, values="P")], [pair_dim("4", b) for b in ["AV", "AC", "AT", "PR", "UI"]]))
+    # v4: impact metrics with their modified twins
+    ex4 = tuple_dim("EX", ["AV", "AC", "AT", "PR", "UI"], [("N", "L", "N", "N", "N"), ("A", "H", "P", "L", "P"), ("P", "L", "N", "H", "A"), ("L", "L", "P", "N", "A")])
+    tabs.append(header("4", -1, {"SC": "L", "SI": "N", "SA": "H"}, [ex4, dim("4", "CR", absent=True, values="LM")], [pair_dim("4", b) for b in ["VC", "VI", "VA"]]))
+    tabs.append(header("4", -1, {"VC": "L", "VI": "H", "VA": "N"}, [ex4, dim("4", "AR", absent=True, values="LM")], [pair_dim("4", b) for b in ["SC", "SI", "SA"]]))
+    # v4: threat and requirement metrics absent / X / equivalent, over every exploitability context and vulnerable-system impact
+    tabs.append(header("4", -1, {"SC": "N", "SI": "L", "SA": "N"}, [dim("4", m) for m in ["AV", "PR", "UI", "AC", "AT"]],
+                       [dim("4", m) for m in ["VC", "VI", "VA"]] + [nd_dim("4", "E", "A"), nd_dim("4", "CR", "H"), nd_dim("4", "IR", "H"), nd_dim("4", "AR", "H")]))
+    return tabs
+
+
 # ------------------------------------------------------------------------------------------
 def record(tabs, work, seed, c09=False, name="tab", rows=None, nsamples=2, max_entries_per_file=4000000):
     """Run the real constructors over all rows of `tabs`.  Returns a list of trace files, each a
